@@ -178,10 +178,13 @@ def build(sc: dict):
         else:
             link("FW", zones[zb][1], "SW2", 6, "FW-SW2")
         link("B", 1, "SW2", 1, "SW2-B")
+        if sc.get("third_host") and not behind:
+            add(_host(Server, "D", pb + ".21", pb + ".1", shut))
+            link("D", 1, "SW2", 2, "SW2-D")
         for p in fw.network_interface:
             fw.enable_port(p)
         info = {"b_ip": b_ip, "b_net": ("10.0.8" if behind else pb) + ".0/24", "a_ip": global_a, "fw_a_port": zones[za][1],
-                "fw_b_port": zones[zb][1]}
+                "fw_b_port": zones[zb][1], "d_ip": pb + ".21"}
     else:
         raise ValueError(fam)
     info.setdefault("a_ip", A_IP)
@@ -226,7 +229,7 @@ BLOCKS = {
     "switched": ["sw1_uplink_disabled", "sw2_uplink_disabled", "sw2_b_port_disabled", "b_nic_disabled", "a_nic_disabled",
                  "missing_link", "removed_link", "sw2_off", "sw1_off", "b_off"],
     "routed": ["router_deny_anyany", "router_deny_src_exact", "router_deny_src_range", "router_deny_dst_exact",
-               "router_deny_three_protocols", "router_port_a_disabled", "router_port_b_disabled", "router_off", "missing_link",
+               "router_deny_three_protocols", "router_deny_four_protocols", "router_port_a_disabled", "router_port_b_disabled", "router_off", "missing_link",
                "removed_link", "sw2_off", "b_off", "b_nic_disabled"],
     "firewall": ["fw_first_stage_deny", "fw_first_stage_empty", "fw_second_stage_deny", "fw_port_a_disabled", "fw_port_b_disabled",
                  "fw_off", "missing_link", "b_off"],
@@ -242,7 +245,7 @@ def edges(sc: dict) -> List[tuple]:
         return [("A", "SW1"), ("C", "SW1"), ("SW1", "R1")] + mid + [("SW2", "B")] + ([("SW2", "D")] if sc.get("third_host") else [])
     if sc.get("b_behind_router"):
         return [("A", "SW1"), ("C", "SW1"), ("SW1", "FW"), ("FW", "RI"), ("RI", "SW2"), ("SW2", "B")]
-    return [("A", "SW1"), ("C", "SW1"), ("SW1", "FW"), ("FW", "SW2"), ("SW2", "B")]
+    return [("A", "SW1"), ("C", "SW1"), ("SW1", "FW"), ("FW", "SW2"), ("SW2", "B")] + ([("SW2", "D")] if sc.get("third_host") else [])
 
 
 def protected(sc: dict) -> List[str]:
@@ -250,7 +253,7 @@ def protected(sc: dict) -> List[str]:
     routers / firewalls are reached but not traversed.  This is `side = false` of the cut theorem (a powered-off or
     NIC-disabled device is included: its own state must not change either)."""
     m = sc["block"]
-    if m == "router_deny_dst_b_only":
+    if m in ("router_deny_dst_b_only", "fw_deny_dst_b_only"):
         return ["B"]  # the rule protects B alone: D and SW2 are reached by permitted traffic, by design
     es = edges(sc)
     names = sorted({x for e in es for x in e})
@@ -323,6 +326,10 @@ def class_patterns(sc: dict, info: dict) -> List[dict]:
         return [pat(dst_ip=info["b_ip"]), pat(dst_ip="10.0.2.0", dst_wc="0.0.0.255")]
     if m == "router_deny_three_protocols":
         return [pat(proto="tcp"), pat(proto="udp"), pat(proto="icmp")]
+    if m == "router_deny_four_protocols":
+        return [pat(proto="tcp"), pat(proto="udp"), pat(proto="icmp"), pat(proto="none")]
+    if m == "fw_deny_dst_b_only":
+        return [pat(dst_ip=info["b_ip"])]
     return [pat()]
 
 
@@ -371,6 +378,7 @@ def roles_for(sc: dict) -> Dict[str, str]:
         "router_port_a_disabled": {at: "frozen"}, "router_port_b_disabled": {at: "ifaceDown"},
         "fw_port_a_disabled": {"FW": "frozen"}, "fw_port_b_disabled": {"FW": "ifaceDown"},
         "fw_first_stage_deny": {"FW": "fwDeny"}, "fw_first_stage_empty": {"FW": "fwDeny"}, "fw_second_stage_deny": {"FW": "fwDeny"},
+        "fw_deny_dst_b_only": {"FW": "fwDeny"},
     }.get(m, {at: "routerDeny"} if m.startswith("router_deny") else {})
 
 
@@ -485,7 +493,7 @@ def expect_certified_b(sc: dict) -> Optional[str]:
     router, a firewall's first list, or the second list the code selects for B's address (from the DMZ the selection is opaque: both
     candidate lists would have to deny).  `None`: no expectation (blocks by disabled interfaces, power, missing links)."""
     m = sc["block"]
-    if m in ("router_deny_anyany", "router_deny_dst_exact", "fw_first_stage_deny", "fw_first_stage_empty"):
+    if m in ("router_deny_anyany", "router_deny_dst_exact", "router_deny_four_protocols", "fw_first_stage_deny", "fw_first_stage_empty"):
         return "certifiedB"
     if m in ("router_deny_src_exact", "router_deny_src_range", "router_deny_three_protocols"):
         return "uncertifiedB"
@@ -501,7 +509,7 @@ def expect_certified_n(sc: dict, prot: List[str]) -> str:
     routers are accepted when the class covers their addresses."""
     roles = roles_for(sc)
     names = sorted({x for e in edges(sc) for x in e})
-    if sc["block"] in ("router_deny_dst_exact", "router_deny_three_protocols"):
+    if sc["block"] in ("router_deny_dst_exact", "router_deny_three_protocols", "router_deny_four_protocols"):
         return "uncertifiedN"
     for h in names:
         role = roles.get(h, "interior")
@@ -565,10 +573,18 @@ def apply_block(sc: dict, sim, N, info, timestep_fn):
         elif m == "router_deny_three_protocols":
             for i, pr in enumerate(("tcp", "udp", "icmp")):
                 r.acl.add_rule(action=ACLAction.DENY, protocol=pr, position=pos + i)
+        elif m == "router_deny_four_protocols":
+            # every value frame.ip.protocol can take: THIS is a block (three rules are not: protocol "none" passes)
+            for i, pr in enumerate(("tcp", "udp", "icmp", "none")):
+                r.acl.add_rule(action=ACLAction.DENY, protocol=pr, position=pos + i)
     elif m == "router_port_a_disabled":
         N[sc.get("at", "R1")].disable_port(1)
     elif m == "router_port_b_disabled":
         N[sc.get("at", "R1")].disable_port(2)
+    elif m == "fw_deny_dst_b_only":
+        fw = N["FW"]
+        second = {"ext": fw.external_outbound_acl, "int": fw.internal_inbound_acl, "dmz": fw.dmz_inbound_acl}[sc["b_zone"]]
+        second.add_rule(action=ACLAction.DENY, dst_ip_address=b_ip, position=pos)
     elif m in ("fw_first_stage_deny", "fw_first_stage_empty", "fw_second_stage_deny"):
         fw = N["FW"]
         first = {"ext": fw.external_inbound_acl, "int": fw.internal_outbound_acl, "dmz": fw.dmz_outbound_acl}[sc["a_zone"]]
@@ -592,7 +608,7 @@ def apply_block(sc: dict, sim, N, info, timestep_fn):
 # ------------------------------------------------------------------------------------------ red repertoire
 OPS = ["ping", "ping_scan", "port_scan_tcp", "port_scan_udp", "port_scan_arp_port", "db_connect", "db_query", "db_query_new",
        "ftp_send", "data_manip", "ransomware", "dos", "term_login", "term_command", "c2_establish", "c2_terminal",
-       "c2_ransomware", "c2_exfil", "web_get", "c_ping", "ping_gw", "scan_d_tcp", "scan_d_udp", "tick"]
+       "c2_ransomware", "c2_exfil", "web_get", "c_ping", "ping_gw", "scan_d_tcp", "scan_d_udp", "port_scan_none", "tick"]
 
 
 def do_op(op: str, N, info) -> str:
@@ -621,6 +637,9 @@ def do_op(op: str, N, info) -> str:
         port, proto = ("POSTGRES_SERVER", "TCP") if op == "scan_d_tcp" else ("DNS", "UDP")
         return str(sw["nmap"].port_scan(target_ip_address=IPv4Address(info["d_ip"]), target_port=PORT_LOOKUP[port],
                                         target_protocol=PROTOCOL_LOOKUP[proto], show=False))
+    if op == "port_scan_none":
+        # a frame whose IP protocol is "none" (legal: VALID_PROTOCOLS): protocol-specific rules for tcp/udp/icmp do not see it
+        return str(sw["nmap"].port_scan(target_ip_address=b_ip, target_port=PORT_LOOKUP["POSTGRES_SERVER"], target_protocol="none", show=False))
     if op.startswith("port_scan"):
         port, proto = {"port_scan_tcp": ("POSTGRES_SERVER", "TCP"), "port_scan_udp": ("DNS", "UDP"),
                        "port_scan_arp_port": ("ARP", "UDP")}[op]
@@ -1011,6 +1030,10 @@ def gen_scenario(rng: Rng, max_ops: int = 8) -> dict:
     pre_pool = ["ping", "db_connect", "term_login", "c2_establish", "port_scan_tcp", "c_ping", "db_query", "ftp_send", "tick"]
     sc["pre_ops"] = [rng.choice(pre_pool) for _ in range(n_pre)]
     post_pool = [o for o in OPS if o != "c2_establish"]  # establishing the beacon is an action ON B: set-up only
+    if sc["block"] == "router_deny_three_protocols":
+        # DENY tcp + udp + icmp is NOT a block for protocol-"none" frames (C06_three_protocols_not_a_block; R-net's control obligation
+        # shows it on the running code): the scenario claims a block only for traffic of the three protocols
+        post_pool = [o for o in post_pool if o != "port_scan_none"]
     sc["post_ops"] = [rng.choice(post_pool) for _ in range(rng.range(2, max_ops))]
     return sc
 
@@ -1036,6 +1059,12 @@ def directed_scenarios(rng: Rng) -> List[dict]:
         out.append(sc)
     # history family: A first exchanges PERMITTED traffic of the same protocol and ports with B's neighbour D through the router whose
     # list denies only what is addressed to B, then attacks B (a verdict that depended on what was judged before would let it through)
+    out.append({"family": "routed", "block": "router_deny_four_protocols", "routers": 1, "at": "R1", "rule_pos": rng.choice([0, 3]),
+                "pre_ops": ["tick"], "post_ops": ["port_scan_none", "ping", "port_scan_udp", "port_scan_none", "data_manip"]})
+    for za, zb in (("ext", "int"), ("int", "ext")):
+        out.append({"family": "firewall", "block": "fw_deny_dst_b_only", "a_zone": za, "b_zone": zb, "third_host": True,
+                    "rule_pos": rng.choice([0, 3]), "pre_ops": [rng.choice(["tick", "c_ping"])],
+                    "post_ops": ["scan_d_tcp", "port_scan_tcp", "db_query_new", "scan_d_udp", "port_scan_udp"]})
     for order in (["scan_d_tcp", "port_scan_tcp", "db_query_new", "scan_d_udp", "port_scan_udp"],
                   ["scan_d_udp", "scan_d_tcp", "data_manip", "port_scan_udp", "db_connect"]):
         out.append({"family": "routed", "block": "router_deny_dst_b_only", "routers": 1, "at": "R1", "third_host": True,
@@ -1103,11 +1132,13 @@ def run(ctx: Ctx):
         ctx.count(f"net:{'certifiedC' if okc else 'uncertifiedC'}:{sc['block']}")
         ctx.count(f"net:{chunk[-1].split()[0]}:{sc['block']}")
         want_n = expect_certified_n(sc, res["protected"])
-        if chunk[-1].split()[0] != want_n and sc["block"] != "router_deny_dst_b_only":
+        if chunk[-1].split()[0] != want_n and sc["block"] not in ("router_deny_dst_b_only", "fw_deny_dst_b_only"):
             certn_bad.append(f"{name} {sc['family']}/{sc['block']}: {chunk[-1]}, expected {want_n}")
         # which theorem covers the scenario, and what it still assumes
         roles = set(roles_for(sc).values())
-        if chunk[-1] == "certifiedN":
+        if sc["block"] in ("router_deny_dst_b_only", "fw_deny_dst_b_only"):
+            ctx.count("net:theorem:none(history scenario: only B is protected; element-level C06_verdict_history_free + oracle)")
+        elif chunk[-1] == "certifiedN":
             ctx.count("net:theorem:C06_certifiedN_unchanged:no-hypothesis")
         elif ok and "ifaceDown" not in roles and "routerDeny" not in roles:
             ctx.count("net:theorem:C06_certified_unchanged:no-hypothesis(arbitrary interior handlers)")
@@ -1121,9 +1152,7 @@ def run(ctx: Ctx):
             ctx.count("net:theorem:none(oracle only: the closure hypothesis of the class theorem does not hold in this run)")
         else:
             ctx.count("net:theorem:C06_certifiedC_unchanged:closure+software-hypotheses")
-        oracle_only = sc["block"] == "router_deny_dst_b_only"  # B alone is protected: no certificate speaks about it
-        if oracle_only:
-            ctx.count("net:theorem:none(history scenario: only B is protected; element-level C06_verdict_history_free + oracle)")
+        oracle_only = sc["block"] in ("router_deny_dst_b_only", "fw_deny_dst_b_only")  # B alone is protected: no certificate speaks about it
         if sc["block"] in CERTIFIABLE and not ok:
             cert_bad.append(f"{name} {sc['family']}/{sc['block']}: {chunk[-3]}")
         if sc["block"] not in CERTIFIABLE and ok:
@@ -1219,5 +1248,14 @@ def run(ctx: Ctx):
             done.add(key)
             ctx.violation(sig_of(small, w), f"{small['family']}/{small['block']}: {w.get('diff') or w.get('what')} after {small['post_ops']}",
                           {"rig": "net", "scenario": small, "violations": res2["violations"], "log": res2["log"], "from": name})
+    # control (non-vacuity of certifyB's rejection): DENY tcp + udp + icmp is NOT a block — a protocol-"none" scan from A does reach B
+    ctl3 = {"family": "routed", "block": "router_deny_three_protocols", "routers": 1, "at": "R1", "rule_pos": 0, "pre_ops": [],
+            "post_ops": ["port_scan_none"]}
+    r3 = run_scenario(ctl3, control=False)
+    b_changed = any(v["kind"] == "protected-state-changed" and v.get("node") == "B" for v in r3["violations"])
+    ctx.count("net:control:three-protocol-rules-let-protocol-none-reach-B" if b_changed else "net:control:three-protocol-rules-BLOCK-protocol-none")
+    ctx.oblige("rig:R-net control: with DENY tcp, DENY udp, DENY icmp a protocol-'none' scan from A changes B (the rule set is not a block: "
+               "C06_three_protocols_not_a_block; certifyB rightly rejects it), while the four-protocol block is certified and holds",
+               "correspondence", b_changed, "B unchanged by a protocol-none scan under the three-protocol rules")
     ctx.oblige("rig:R-net protected side unchanged on every scenario", "oracle", clean == len(scenarios),
                f"{len(scenarios) - clean} of {len(scenarios)} scenarios show a change on the protected side")
